@@ -330,6 +330,42 @@ def run_H(acc):
                         {'rules': rules, 'first': first, 'name': name,
                          'creds': bcreds, 'target': btarget}, want, got, 'H')
                 acc.outcome('H-%s' % (want[1],))
+    # the caller keeps ONE target mapping and changes it between two calls
+    # (drops the key the placeholder needs, or gives it another value)
+    for leaf in leaves + ['role:%(pid)s']:
+        for how, change in itertools.product(
+                ('direct', 'viaref'), ('pop', 'clear', 'newvalue')):
+            enf = world.bare_enforcer()
+            world.set_rules(enf, {'member': leaf, 'viaref': 'rule:member',
+                                  'direct': leaf})
+            creds = copy.deepcopy(good['creds'])
+            creds['roles'] = ['p1']
+            target = {'pid': 'p1', 'other': 1}
+            acc.case('H', True)
+            acc.ev()
+            r1 = world.decide(enf, how, target, copy.deepcopy(creds))
+            if change == 'pop':
+                target.pop('pid')
+            elif change == 'clear':
+                target.clear()
+            else:
+                target['pid'] = 'p2'
+            acc.ev()
+            r2 = world.decide(enf, how, target, copy.deepcopy(creds))
+            if leaf == 'tok.id:p1':
+                want = ('ok', True)       # no placeholder in this one
+            else:
+                want = ('ok', False)
+            if r1 != ('ok', True) or r2 != want:
+                acc.violation(
+                    'H|same-target-%s|%s' % (change, 'allows' if r2 ==
+                                             ('ok', True) else r2[1]),
+                    'leaf %r (%s): first call %r; after the caller changed '
+                    'the SAME target mapping (%s) the second call gives %r, '
+                    'expected %r' % (leaf, how, r1, change, r2, want),
+                    {'leaf': leaf, 'how': how, 'change': change}, want, r2,
+                    'H')
+            acc.outcome('H-same-target-%s' % (want[1],))
     acc.sample('H', {'leaves': leaves})
 
 
